@@ -275,6 +275,7 @@ type Datatype struct {
 }
 
 func NewDataTypeFromType(t reflect.Type) (*Datatype, error) {
+	defer enter("NewDataTypeFromType", false)()
 	switch t.Kind() {
 	case reflect.Float64, reflect.Float32, reflect.Int32, reflect.Uint32, reflect.Int64, reflect.Uint64, reflect.Int, reflect.Uint, reflect.Int8, reflect.Uint8, reflect.Int16, reflect.Uint16:
 		return &Datatype{goType: t}, nil
@@ -295,7 +296,10 @@ func (t *Datatype) Size() uint {
 	}
 	return uint(t.goType.Size())
 }
-func (t *Datatype) Close() error { return nil }
+func (t *Datatype) Close() error {
+	defer enter("Datatype.Close", false)()
+	return nil
+}
 
 type hyperslab struct{ offset, stride, count, block []uint }
 
@@ -305,18 +309,24 @@ type Dataspace struct {
 }
 
 func CreateSimpleDataspace(dims, maxDims []uint) (*Dataspace, error) {
+	defer enter("CreateSimpleDataspace", false)()
 	return &Dataspace{dims: append([]uint{}, dims...)}, nil
 }
 
-func (s *Dataspace) Close() error { return nil }
+func (s *Dataspace) Close() error {
+	defer enter("Dataspace.Close", false)()
+	return nil
+}
 
 func (s *Dataspace) SimpleExtentDims() (dims, maxdims []uint, err error) {
+	defer enter("Dataspace.SimpleExtentDims", false)()
 	return append([]uint{}, s.dims...), append([]uint{}, s.dims...), nil
 }
 
 func (s *Dataspace) SimpleExtentNDims() int { return len(s.dims) }
 
 func (s *Dataspace) SelectHyperslab(offset, stride, count, block []uint) error {
+	defer enter("Dataspace.SelectHyperslab", false)()
 	defer enter("SelectHyperslab", false)()
 	if len(offset) != len(s.dims) || len(count) != len(s.dims) {
 		return errors.New("size of offset does not match extent")
@@ -402,10 +412,22 @@ func (s *Dataspace) offsets() ([]int, error) {
 
 type PropList struct{}
 
-func NewPropList(cls PropType) (*PropList, error) { return &PropList{}, nil }
-func (p *PropList) Close() error                  { return nil }
-func (p *PropList) SetDeflate(level int) error    { return nil }
-func (p *PropList) SetChunk(dims []uint) error    { return nil }
+func NewPropList(cls PropType) (*PropList, error) {
+	defer enter("NewPropList", false)()
+	return &PropList{}, nil
+}
+func (p *PropList) Close() error {
+	defer enter("PropList.Close", false)()
+	return nil
+}
+func (p *PropList) SetDeflate(level int) error {
+	defer enter("PropList.SetDeflate", false)()
+	return nil
+}
+func (p *PropList) SetChunk(dims []uint) error {
+	defer enter("PropList.SetChunk", false)()
+	return nil
+}
 
 // ---------------------------------------------------------------------------------------------
 // datasets
@@ -463,10 +485,12 @@ func (s *Dataset) Close() error {
 
 func (s *Dataset) Space() *Dataspace {
 	defer enter("Dataset.Space", false)()
+	defer enter("Dataset.Space", false)()
 	return &Dataspace{dims: append([]uint{}, s.ds.dims...)}
 }
 
 func (s *Dataset) Datatype() (*Datatype, error) {
+	defer enter("Dataset.Datatype", false)()
 	defer enter("Dataset.Datatype", false)()
 	if s.ds.strSize > 0 {
 		return &Datatype{goType: reflect.TypeOf(""), strSize: s.ds.strSize}, nil
